@@ -6,7 +6,7 @@ import Tw.Proofs.SnapMgr
 namespace Tw.SnapMgr
 open Tw.SnapXfer
 
-variable {S D : Type} {ops : Ops S D}
+variable {S D : Type} {ops : Ops S D} {P : S → Prop}
 
 /-- A recorded `delta_chunks` call is what the glue makes of two of the sender's snapshots. -/
 def XferOk (ops : Ops S D) (sent : List (Int × S)) (x : Xfer) : Prop :=
@@ -57,12 +57,18 @@ theorem RecvOk.mono {xfers : List Xfer} {r : Receiver} (h : RecvOk xfers r) (x :
 
 /-! ### delivery of a snapshot message -/
 
-theorem deliver_safe (laws : Laws ops) {y : Sys S} (hg : Good ops y) {m : Msg} (hm : m ∈ y.msgs) :
+theorem deliver_safe (laws : LawsOn ops P) {y : Sys S} (hg : Good ops y)
+    (hsP : ∀ p, p ∈ y.sent → P p.2) {m : Msg} (hm : m ∈ y.msgs) :
     Good ops { y with client := (y.client.step ops m).1 } ∧
       Obs.ok y.sent (.delivered m.tick (y.client.step ops m).2.1 y.client.ackTick
         (y.client.step ops m).1.ackTick) := by
   obtain ⟨x, hx, ms, hms, hmm⟩ := hg.msgsOk m hm
   obtain ⟨hb, s, baseSnap, hs, hbase, hcrc, hform⟩ := hg.xfersOk x hx
+  have hPs : P s := hsP _ hs
+  have hPb : P baseSnap := by
+    rcases hbase with ⟨_, h⟩ | ⟨_, h⟩
+    · rw [h]; exact laws.empty
+    · exact hsP _ h
   have htick : m.tick = x.tick := (deltaChunks_form' hms).tick_eq m hmm
   obtain ⟨hr', hdel⟩ := recv_step_safe hg.xfersUniq hg.recvOk hx hb hms hmm
   have mk : ∀ (c : Manager S), RecvOk y.xfers c.receiver →
@@ -91,10 +97,10 @@ theorem deliver_safe (laws : Laws ops) {y : Sys S} (hg : Good ops y) {m : Msg} (
               | (st', .ok s, w) => (st', .ok s, w)) ∧
           ops.apply baseSnap dl = .ok s ∧ (∀ c, crc = some c → c = ops.crc s) := by
         rcases hform with ⟨hne, d, hcreate, hwrite⟩ | ⟨hempty, hsame⟩
-        · refine ⟨d, some x.crc, ?_, laws.apply_create _ _ _ hcreate, fun c hc => by injection hc with hc; rw [← hc, hcrc]⟩
-          simp only [Manager.addDelta, delivery, hne, if_false, laws.read_write _ _ hwrite, Option.map_some]
+        · refine ⟨d, some x.crc, ?_, laws.apply_create _ _ _ hPb hPs hcreate, fun c hc => by injection hc with hc; rw [← hc, hcrc]⟩
+          simp only [Manager.addDelta, delivery, hne, if_false, laws.read_write _ _ _ _ hPb hPs hcreate hwrite, Option.map_some]
           try rfl
-        · refine ⟨ops.clear, none, ?_, laws.same_clear _ _ hsame, fun c hc => by cases hc⟩
+        · refine ⟨ops.clear, none, ?_, laws.same_clear _ _ hPb hPs hsame, fun c hc => by cases hc⟩
           simp only [Manager.addDelta, delivery, hempty, if_true, Option.map_none]
           try rfl
       obtain ⟨dl, crc, hmgr, happly, hcrc'⟩ := key
@@ -152,7 +158,8 @@ theorem reset_safe {y : Sys S} (hg : Good ops y) : Good ops { y with client := y
 
 /-! ### the sender builds and sends a snapshot -/
 
-theorem send_safe (laws : Laws ops) {y : Sys S} (hg : Good ops y) {tick : Int} {snap : S}
+theorem send_safe (laws : LawsOn ops P) {y : Sys S} (hg : Good ops y)
+    (hsP : ∀ p, p ∈ y.sent → P p.2) {tick : Int} {snap : S} (hPsnap : P snap)
     (hi : inI32 tick) (hnew : ∀ p, p ∈ y.sent → p.1 < tick)
     {st' : Storage S} {x : Xfer} {ms : List Msg}
     (h : sendSnap ops y.sender tick snap = .ok (st', x, ms)) :
@@ -174,6 +181,10 @@ theorem send_safe (laws : Laws ops) {y : Sys S} (hg : Good ops y) {tick : Int} {
       have hmem := hg.senderStored d0 (List.mem_of_getLast? hlast)
       simp only [Storage.baseOf, hdt, hl, Option.getD_some]
       exact ⟨h0, hdtick ▸ hmem⟩
+  have hPbase : P (y.sender.baseOf ops ({ tick := tick, snap := snap } :: y.sender.snaps)) := by
+    rcases hbase with ⟨_, h⟩ | ⟨_, h⟩
+    · rw [h]; exact laws.empty
+    · exact hsP _ h
   have hbI32 : inI32 (y.sender.deltaTick.getD (-1)) := by
     rcases hbase with ⟨h, _⟩ | ⟨_, h⟩
     · rw [h]; decide
@@ -263,7 +274,7 @@ theorem send_safe (laws : Laws ops) {y : Sys S} (hg : Good ops y) {tick : Int} {
         | ok ms' =>
           simp only [hchunks, Outcome.ok.injEq, Prod.mk.injEq] at h
           obtain ⟨rfl, rfl, rfl⟩ := h
-          exact finish bytes ms' hchunks (Or.inl ⟨laws.write_nonempty _ _ hwrite, d, hcreate, hwrite⟩)
+          exact finish bytes ms' hchunks (Or.inl ⟨laws.write_nonempty _ _ _ _ hPbase hPsnap hcreate hwrite, d, hcreate, hwrite⟩)
 
 /-! ### whole histories -/
 
@@ -279,6 +290,10 @@ theorem Obs.ok_mono {sent : List (Int × S)} {o : Obs S} (h : Obs.ok sent o) (p 
       | none => exact h
       | some s => exact ⟨List.mem_cons_of_mem _ h.1, h.2⟩
 
+/-- the invariant together with "every snapshot the sender built satisfies `P`" -/
+def GoodP (ops : Ops S D) (P : S → Prop) (y : Sys S) : Prop :=
+  Good ops y ∧ ∀ p, p ∈ y.sent → P p.2
+
 /-- the newest tick the sender has used after the event -/
 def nextLast {S : Type} (last : Option Int) : Ev S → Option Int
   | .send t _ => some t
@@ -286,10 +301,11 @@ def nextLast {S : Type} (last : Option Int) : Ev S → Option Int
 
 /-- One event from a good state: the next state is good, `sent` only grows (by a snapshot with a
 newer tick), and the observation passes the C13 verdict. -/
-theorem step_safe (laws : Laws ops) {y : Sys S} (hg : Good ops y) {last : Option Int}
+theorem step_safe (laws : LawsOn ops P) {y : Sys S} (hg : GoodP ops P y) {last : Option Int}
     (hlast : ∀ p, p ∈ y.sent → ∃ l, last = some l ∧ p.1 ≤ l) (e : Ev S) (rest : List (Ev S))
-    (hs : sendsOk last (e :: rest)) {y' : Sys S} {o : Obs S} (h : y.step ops e = .ok (y', o)) :
-    Good ops y' ∧ Obs.ok y'.sent o ∧ (∀ o', Obs.ok y.sent o' → Obs.ok y'.sent o') ∧
+    (hs : sendsOk last (e :: rest)) (hPe : ∀ t s, e = .send t s → P s)
+    {y' : Sys S} {o : Obs S} (h : y.step ops e = .ok (y', o)) :
+    GoodP ops P y' ∧ Obs.ok y'.sent o ∧ (∀ o', Obs.ok y.sent o' → Obs.ok y'.sent o') ∧
       sendsOk (nextLast last e) rest ∧ ∀ p, p ∈ y'.sent → ∃ l, nextLast last e = some l ∧ p.1 ≤ l := by
   cases e with
   | send tick snap =>
@@ -305,7 +321,13 @@ theorem step_safe (laws : Laws ops) {y : Sys S} (hg : Good ops y) {last : Option
         intro p hp
         obtain ⟨l, hl, hle⟩ := hlast p hp
         have := hgt l hl; omega
-      refine ⟨send_safe laws hg hi hnew hsend, trivial, fun o' ho' => Obs.ok_mono ho' _, hrest, ?_⟩
+      have hsP' : ∀ p, p ∈ (tick, snap) :: y.sent → P p.2 := by
+        intro p hp
+        rcases List.mem_cons.mp hp with rfl | hp'
+        · exact hPe _ _ rfl
+        · exact hg.2 p hp'
+      refine ⟨⟨send_safe laws hg.1 hg.2 (hPe _ _ rfl) hi hnew hsend, hsP'⟩, trivial,
+        fun o' ho' => Obs.ok_mono ho' _, hrest, ?_⟩
       intro p hp
       rcases List.mem_cons.mp hp with rfl | hp'
       · exact ⟨_, rfl, Int.le_refl _⟩
@@ -320,12 +342,12 @@ theorem step_safe (laws : Laws ops) {y : Sys S} (hg : Good ops y) {last : Option
     | some m =>
       simp only [hm, Outcome.ok.injEq, Prod.mk.injEq] at h
       obtain ⟨rfl, rfl⟩ := h
-      obtain ⟨g, ob⟩ := deliver_safe laws hg (List.mem_of_getElem? hm)
-      exact ⟨g, ob, fun _ h => h, hs, hlast⟩
+      obtain ⟨g, ob⟩ := deliver_safe laws hg.1 hg.2 (List.mem_of_getElem? hm)
+      exact ⟨⟨g, hg.2⟩, ob, fun _ h => h, hs, hlast⟩
   | ack =>
     simp only [Sys.step, Outcome.ok.injEq, Prod.mk.injEq] at h
     obtain ⟨rfl, rfl⟩ := h
-    exact ⟨{ hg with }, trivial, fun _ h => h, hs, hlast⟩
+    exact ⟨⟨{ hg.1 with }, hg.2⟩, trivial, fun _ h => h, hs, hlast⟩
   | deliverAck j =>
     simp only [Sys.step] at h
     cases hv : y.acks[j]? with
@@ -336,29 +358,30 @@ theorem step_safe (laws : Laws ops) {y : Sys S} (hg : Good ops y) {last : Option
     | some v =>
       simp only [hv, Outcome.ok.injEq, Prod.mk.injEq] at h
       obtain ⟨rfl, rfl⟩ := h
-      exact ⟨setDeltaTick_safe hg v, trivial, fun _ h => h, hs, hlast⟩
+      exact ⟨⟨setDeltaTick_safe hg.1 v, hg.2⟩, trivial, fun _ h => h, hs, hlast⟩
   | forgedAck v =>
     simp only [Sys.step, Outcome.ok.injEq, Prod.mk.injEq] at h
     obtain ⟨rfl, rfl⟩ := h
-    exact ⟨setDeltaTick_safe hg v, trivial, fun _ h => h, hs, hlast⟩
+    exact ⟨⟨setDeltaTick_safe hg.1 v, hg.2⟩, trivial, fun _ h => h, hs, hlast⟩
   | clientReset =>
     simp only [Sys.step, Outcome.ok.injEq, Prod.mk.injEq] at h
     obtain ⟨rfl, rfl⟩ := h
-    exact ⟨reset_safe hg, trivial, fun _ h => h, hs, hlast⟩
+    exact ⟨⟨reset_safe hg.1, hg.2⟩, trivial, fun _ h => h, hs, hlast⟩
 
-theorem run_safe (laws : Laws ops) : ∀ (evs : List (Ev S)) (y : Sys S) (last : Option Int),
-    Good ops y → (∀ p, p ∈ y.sent → ∃ l, last = some l ∧ p.1 ≤ l) → sendsOk last evs →
+theorem run_safe (laws : LawsOn ops P) : ∀ (evs : List (Ev S)) (y : Sys S) (last : Option Int),
+    GoodP ops P y → (∀ p, p ∈ y.sent → ∃ l, last = some l ∧ p.1 ≤ l) → sendsOk last evs →
+    (∀ e, e ∈ evs → ∀ t s, e = .send t s → P s) →
     ∀ y' obs, Sys.run ops y evs = .ok (y', obs) →
-      Good ops y' ∧ (∀ o, o ∈ obs → Obs.ok y'.sent o) ∧ (∀ o', Obs.ok y.sent o' → Obs.ok y'.sent o') := by
+      GoodP ops P y' ∧ (∀ o, o ∈ obs → Obs.ok y'.sent o) ∧ (∀ o', Obs.ok y.sent o' → Obs.ok y'.sent o') := by
   intro evs
   induction evs with
   | nil =>
-    intro y last hg _ _ y' obs h
+    intro y last hg _ _ _ y' obs h
     simp only [Sys.run, Outcome.ok.injEq, Prod.mk.injEq] at h
     obtain ⟨rfl, rfl⟩ := h
     exact ⟨hg, fun o ho => by simp at ho, fun _ h => h⟩
   | cons e rest ih =>
-    intro y last hg hlast hs y' obs h
+    intro y last hg hlast hs hPevs y' obs h
     simp only [Sys.run] at h
     cases hstep : y.step ops e with
     | panic s => simp [hstep] at h
@@ -371,8 +394,10 @@ theorem run_safe (laws : Laws ops) : ∀ (evs : List (Ev S)) (y : Sys S) (last :
         obtain ⟨y2, os⟩ := r2
         simp only [hrun, Outcome.ok.injEq, Prod.mk.injEq] at h
         obtain ⟨rfl, rfl⟩ := h
-        obtain ⟨g1, ob1, mono1, hs', hlast'⟩ := step_safe laws hg hlast e rest hs hstep
-        obtain ⟨g2, obs2, mono2⟩ := ih y1 (nextLast last e) g1 hlast' hs' y2 os hrun
+        obtain ⟨g1, ob1, mono1, hs', hlast'⟩ :=
+          step_safe laws hg hlast e rest hs (hPevs e List.mem_cons_self) hstep
+        obtain ⟨g2, obs2, mono2⟩ := ih y1 (nextLast last e) g1 hlast' hs'
+          (fun e' he' => hPevs e' (List.mem_cons_of_mem _ he')) y2 os hrun
         refine ⟨g2, ?_, fun o' h => mono2 o' (mono1 o' h)⟩
         intro o ho
         rcases List.mem_cons.mp ho with rfl | ho'
@@ -387,21 +412,50 @@ theorem ObsB.ok_of_mono {sent sent' : List (Int × S)}
   | obs o => exact mono o h
   | builderError e => trivial
 
-theorem stepB_safe {I : Type} (laws : Laws ops) (b : BuildOps S I) {y : SysB S} (hg : Good ops y.sys)
+/-- the invariant of `SysB`: `GoodP` and every snapshot on the free list satisfies `P` -/
+def GoodB (ops : Ops S D) (P : S → Prop) (y : SysB S) : Prop :=
+  GoodP ops P y.sys ∧ ∀ s, s ∈ y.free → P s
+
+/-- the builder keeps `P`: what it makes from a seed with `P` has `P` (for this event's items) -/
+def BuildKeeps {I : Type} (b : BuildOps S I) (P : S → Prop) : EvB S I → Prop
+  | .sendItems _ items => ∀ seed s, P seed → b.build seed items = .ok (.ok s) → P s
+  | .other (.send _ s) => P s
+  | .other _ => True
+
+theorem stepB_safe {I : Type} (laws : LawsOn ops P) (b : BuildOps S I) (hdef : P b.default)
+    {y : SysB S} (hg : GoodB ops P y)
     {last : Option Int} (hlast : ∀ p, p ∈ y.sys.sent → ∃ l, last = some l ∧ p.1 ≤ l)
-    (e : EvB S I) (rest : List (EvB S I)) (hs : sendsOkB last (e :: rest)) {y' : SysB S} {o : ObsB S}
-    (h : y.step ops b e = .ok (y', o)) :
-    Good ops y'.sys ∧ ObsB.ok y'.sys.sent o ∧ (∀ o', Obs.ok y.sys.sent o' → Obs.ok y'.sys.sent o') ∧
+    (e : EvB S I) (rest : List (EvB S I)) (hs : sendsOkB last (e :: rest)) (hbk : BuildKeeps b P e)
+    {y' : SysB S} {o : ObsB S} (h : y.step ops b e = .ok (y', o)) :
+    GoodB ops P y' ∧ ObsB.ok y'.sys.sent o ∧ (∀ o', Obs.ok y.sys.sent o' → Obs.ok y'.sys.sent o') ∧
       ∃ last', sendsOkB last' rest ∧ ∀ p, p ∈ y'.sys.sent → ∃ l, last' = some l ∧ p.1 ≤ l := by
+  obtain ⟨hgp, hfree⟩ := hg
+  have hdrop : ∀ s, s ∈ y.free.dropLast → P s := fun s hs => hfree s (List.dropLast_subset _ hs)
   -- a send of a ready-made snapshot, shared by the two send cases
   have send_case : ∀ (tick : Int) (snap : S) (sys' : Sys S) (o' : Obs S),
-      inI32 tick → (∀ l, last = some l → l < tick) →
+      P snap → inI32 tick → (∀ l, last = some l → l < tick) →
       y.sys.step ops (.send tick snap) = .ok (sys', o') →
-      Good ops sys' ∧ Obs.ok sys'.sent o' ∧ (∀ o'', Obs.ok y.sys.sent o'' → Obs.ok sys'.sent o'') ∧
+      GoodP ops P sys' ∧ Obs.ok sys'.sent o' ∧ (∀ o'', Obs.ok y.sys.sent o'' → Obs.ok sys'.sent o'') ∧
         ∀ p, p ∈ sys'.sent → ∃ l, some tick = some l ∧ p.1 ≤ l := by
-    intro tick snap sys' o' hi hgt hstep
-    obtain ⟨g, ob, mono, _, hb⟩ := step_safe laws hg hlast (.send tick snap) [] ⟨hi, hgt, trivial⟩ hstep
+    intro tick snap sys' o' hPs hi hgt hstep
+    obtain ⟨g, ob, mono, _, hb⟩ := step_safe laws hgp hlast (.send tick snap) [] ⟨hi, hgt, trivial⟩
+      (fun t s he => by injection he with _ h2; subst h2; exact hPs) hstep
     exact ⟨g, ob, mono, hb⟩
+  -- the seed of `new_builder()` satisfies `P`
+  have hseed : P (y.seed b) := by
+    unfold SysB.seed
+    cases hh : y.sys.sender.snaps.head? with
+    | some n =>
+      have hn : n ∈ y.sys.sender.snaps := by
+        cases hl : y.sys.sender.snaps with
+        | nil => rw [hl] at hh; cases hh
+        | cons x r => rw [hl] at hh; simp at hh; subst hh; exact List.mem_cons_self
+      exact hgp.2 _ (hgp.1.senderStored n hn)
+    | none =>
+      simp only
+      cases hl : y.free.getLast? with
+      | none => exact hdef
+      | some s => exact hfree s (List.mem_of_getLast? hl)
   cases e with
   | sendItems tick items =>
     obtain ⟨hi, hgt, hrest⟩ := hs
@@ -413,7 +467,7 @@ theorem stepB_safe {I : Type} (laws : Laws ops) (b : BuildOps S I) {y : SysB S} 
       | error e =>
         simp only [hb, Outcome.ok.injEq, Prod.mk.injEq] at h
         obtain ⟨rfl, rfl⟩ := h
-        refine ⟨hg, trivial, fun _ h => h, some tick, hrest, ?_⟩
+        refine ⟨⟨hgp, hdrop⟩, trivial, fun _ h => h, some tick, hrest, ?_⟩
         intro p hp
         obtain ⟨l, hl, hle⟩ := hlast p hp
         have := hgt l hl
@@ -426,8 +480,8 @@ theorem stepB_safe {I : Type} (laws : Laws ops) (b : BuildOps S I) {y : SysB S} 
           obtain ⟨sys', o'⟩ := r2
           simp only [hstep, Outcome.ok.injEq, Prod.mk.injEq] at h
           obtain ⟨rfl, rfl⟩ := h
-          obtain ⟨g, ob, mono, hb'⟩ := send_case tick snap sys' o' hi hgt hstep
-          exact ⟨g, ob, mono, some tick, hrest, hb'⟩
+          obtain ⟨g, ob, mono, hb'⟩ := send_case tick snap sys' o' (hbk _ _ hseed hb) hi hgt hstep
+          exact ⟨⟨g, hdrop⟩, ob, mono, some tick, hrest, hb'⟩
   | other e =>
     simp only [SysB.step] at h
     cases hstep : y.sys.step ops e with
@@ -436,42 +490,71 @@ theorem stepB_safe {I : Type} (laws : Laws ops) (b : BuildOps S I) {y : SysB S} 
       obtain ⟨sys', o'⟩ := r2
       simp only [hstep, Outcome.ok.injEq, Prod.mk.injEq] at h
       obtain ⟨rfl, rfl⟩ := h
+      -- what an acknowledgement drains goes to the free list; it was stored, hence sent
+      have hdr : ∀ v s, s ∈ y.sys.sender.drainedBy v → P s := by
+        intro v s hs
+        unfold Storage.drainedBy at hs
+        by_cases hv : v < 0
+        · simp [hv] at hs
+        · simp only [hv, if_false] at hs
+          obtain ⟨x, hx, rfl⟩ := List.mem_map.mp hs
+          exact hgp.2 _ (hgp.1.senderStored x (List.mem_of_mem_drop hx))
       cases e with
       | send tick snap =>
         obtain ⟨hi, hgt, hrest⟩ := hs
-        obtain ⟨g, ob, mono, hb'⟩ := send_case tick snap sys' o' hi hgt hstep
-        exact ⟨g, ob, mono, some tick, hrest, hb'⟩
+        obtain ⟨g, ob, mono, hb'⟩ := send_case tick snap sys' o' hbk hi hgt hstep
+        refine ⟨⟨g, ?_⟩, ob, mono, some tick, hrest, hb'⟩
+        intro s hs; exact hfree s (by simpa using hs)
       | deliver i =>
-        obtain ⟨g, ob, mono, _, hb'⟩ := step_safe laws hg hlast (.deliver i) [] trivial hstep
-        exact ⟨g, ob, mono, last, hs, hb'⟩
+        obtain ⟨g, ob, mono, _, hb'⟩ := step_safe laws hgp hlast (.deliver i) [] trivial
+          (fun t s he => by cases he) hstep
+        refine ⟨⟨g, ?_⟩, ob, mono, last, hs, hb'⟩
+        intro s hs; exact hfree s (by simpa using hs)
       | ack =>
-        obtain ⟨g, ob, mono, _, hb'⟩ := step_safe laws hg hlast .ack [] trivial hstep
-        exact ⟨g, ob, mono, last, hs, hb'⟩
+        obtain ⟨g, ob, mono, _, hb'⟩ := step_safe laws hgp hlast .ack [] trivial
+          (fun t s he => by cases he) hstep
+        refine ⟨⟨g, ?_⟩, ob, mono, last, hs, hb'⟩
+        intro s hs; exact hfree s (by simpa using hs)
       | deliverAck j =>
-        obtain ⟨g, ob, mono, _, hb'⟩ := step_safe laws hg hlast (.deliverAck j) [] trivial hstep
-        exact ⟨g, ob, mono, last, hs, hb'⟩
+        obtain ⟨g, ob, mono, _, hb'⟩ := step_safe laws hgp hlast (.deliverAck j) [] trivial
+          (fun t s he => by cases he) hstep
+        refine ⟨⟨g, ?_⟩, ob, mono, last, hs, hb'⟩
+        intro s hs
+        rcases List.mem_append.mp hs with h1 | h1
+        · exact hfree s h1
+        · cases hv : y.sys.acks[j]? with
+          | none => simp [hv] at h1
+          | some v => simp only [hv] at h1; exact hdr v s h1
       | forgedAck v =>
-        obtain ⟨g, ob, mono, _, hb'⟩ := step_safe laws hg hlast (.forgedAck v) [] trivial hstep
-        exact ⟨g, ob, mono, last, hs, hb'⟩
+        obtain ⟨g, ob, mono, _, hb'⟩ := step_safe laws hgp hlast (.forgedAck v) [] trivial
+          (fun t s he => by cases he) hstep
+        refine ⟨⟨g, ?_⟩, ob, mono, last, hs, hb'⟩
+        intro s hs
+        rcases List.mem_append.mp hs with h1 | h1
+        · exact hfree s h1
+        · exact hdr v s h1
       | clientReset =>
-        obtain ⟨g, ob, mono, _, hb'⟩ := step_safe laws hg hlast .clientReset [] trivial hstep
-        exact ⟨g, ob, mono, last, hs, hb'⟩
+        obtain ⟨g, ob, mono, _, hb'⟩ := step_safe laws hgp hlast .clientReset [] trivial
+          (fun t s he => by cases he) hstep
+        refine ⟨⟨g, ?_⟩, ob, mono, last, hs, hb'⟩
+        intro s hs; exact hfree s (by simpa using hs)
 
-theorem runB_safe {I : Type} (laws : Laws ops) (b : BuildOps S I) :
+theorem runB_safe {I : Type} (laws : LawsOn ops P) (b : BuildOps S I) (hdef : P b.default) :
     ∀ (evs : List (EvB S I)) (y : SysB S) (last : Option Int),
-    Good ops y.sys → (∀ p, p ∈ y.sys.sent → ∃ l, last = some l ∧ p.1 ≤ l) → sendsOkB last evs →
+    GoodB ops P y → (∀ p, p ∈ y.sys.sent → ∃ l, last = some l ∧ p.1 ≤ l) → sendsOkB last evs →
+    (∀ e, e ∈ evs → BuildKeeps b P e) →
     ∀ y' obs, SysB.run ops b y evs = .ok (y', obs) →
-      Good ops y'.sys ∧ (∀ o, o ∈ obs → ObsB.ok y'.sys.sent o) ∧
+      GoodB ops P y' ∧ (∀ o, o ∈ obs → ObsB.ok y'.sys.sent o) ∧
         (∀ o', Obs.ok y.sys.sent o' → Obs.ok y'.sys.sent o') := by
   intro evs
   induction evs with
   | nil =>
-    intro y last hg _ _ y' obs h
+    intro y last hg _ _ _ y' obs h
     simp only [SysB.run, Outcome.ok.injEq, Prod.mk.injEq] at h
     obtain ⟨rfl, rfl⟩ := h
     exact ⟨hg, fun o ho => by simp at ho, fun _ h => h⟩
   | cons e rest ih =>
-    intro y last hg hlast hs y' obs h
+    intro y last hg hlast hs hbk y' obs h
     simp only [SysB.run] at h
     cases hstep : y.step ops b e with
     | panic s => simp [hstep] at h
@@ -484,12 +567,17 @@ theorem runB_safe {I : Type} (laws : Laws ops) (b : BuildOps S I) :
         obtain ⟨y2, os⟩ := r2
         simp only [hrun, Outcome.ok.injEq, Prod.mk.injEq] at h
         obtain ⟨rfl, rfl⟩ := h
-        obtain ⟨g1, ob1, mono1, last', hs', hlast'⟩ := stepB_safe laws b hg hlast e rest hs hstep
-        obtain ⟨g2, obs2, mono2⟩ := ih y1 last' g1 hlast' hs' y2 os hrun
+        obtain ⟨g1, ob1, mono1, last', hs', hlast'⟩ :=
+          stepB_safe laws b hdef hg hlast e rest hs (hbk e List.mem_cons_self) hstep
+        obtain ⟨g2, obs2, mono2⟩ := ih y1 last' g1 hlast' hs'
+          (fun e' he' => hbk e' (List.mem_cons_of_mem _ he')) y2 os hrun
         refine ⟨g2, ?_, fun o' h => mono2 o' (mono1 o' h)⟩
         intro o ho
         rcases List.mem_cons.mp ho with rfl | ho'
         · exact ObsB.ok_of_mono mono2 ob1
         · exact obs2 o ho'
+
+theorem goodB_init (laws : LawsOn ops P) : GoodB ops P ({} : SysB S) :=
+  ⟨⟨good_init, by intro p hp; cases hp⟩, by intro s hs; cases hs⟩
 
 end Tw.SnapMgr
